@@ -422,6 +422,25 @@ class World:
                 'trace': self.trace, 'ops': self.ops, 'done': job.done,
                 'worker_clean': 'current job' not in b.status and len(b.tasks_done) >= before}
 
+    def local_graph(self, shas, berte=None):
+        """sha -> parents for the given commits and all their ancestors, read from the job's local clone
+        (objects of deleted temporary branches are still in its object database)."""
+        b = berte or self.berte
+        d = b.git_repo.cmd_directory
+        shas = sorted(set(x for x in shas if x))
+        if not d or not os.path.isdir(os.path.join(d, '.git')) or not shas:
+            return {}
+        g = {}
+        for i in range(0, len(shas), 200):
+            rc, out = _git(d, 'rev-list', '--parents', '--topo-order', '--reverse', *shas[i:i + 200], check=False)
+            if rc != 0:
+                continue
+            for l in out.splitlines():
+                p = l.split()
+                if p:
+                    g[p[0]] = p[1:]
+        return g
+
     def drain(self, limit=8):
         """Run the jobs a previous job enqueued (rebuild_queues wakes pull requests up)."""
         res = []
@@ -479,11 +498,21 @@ class Recorder:
                 raise InjectedCrash()
             if f and f.get('at') == idx and f.get('mode') == 'third_party':
                 f['action'](w)
-            if f and f.get('at') == idx and f.get('mode') == 'reject':
-                op['rejected'] = f.get('ref')
-                res = run(reject=f.get('ref'))
-            else:
-                res = run(reject=None)
+            if kind in ('push', 'push_all', 'rawpush'):
+                op['remote_before'] = w.refs()
+            try:
+                if f and f.get('at') == idx and f.get('mode') == 'reject':
+                    op['rejected'] = f.get('ref')
+                    res = run(reject=f.get('ref'))
+                else:
+                    res = run(reject=None)
+                op['ok'] = True
+            except BaseException:
+                op['ok'] = False
+                raise
+            finally:
+                if kind in ('push', 'push_all', 'rawpush'):
+                    op['remote_after'] = w.refs()
             op['done'] = True
             if f and f.get('at') == idx and f.get('mode') == 'crash_after':
                 f['crashed'] = True
@@ -515,7 +544,7 @@ class Recorder:
 
         def w_remove(orig):
             def remove(self_, del_local=True, force=False, do_push=False):
-                w.trace.append({'op': 'remove', 'name': self_.name, 'local': del_local, 'force': force,
+                w.trace.append({'op': 'remove', 'name': self_.name, 'del_local': del_local, 'force': force,
                                 'push': do_push})
                 return orig(self_, del_local=del_local, force=force, do_push=do_push)
             return remove
@@ -532,7 +561,7 @@ class Recorder:
                     if kept:
                         orig(self_, kept)
                     raise lg.PushFailedException(name)
-                w.trace.append({'op': 'push', 'names': names, 'local': rec.local_refs(self_)})
+                w.trace.append({'op': 'push', 'names': names, 'local': rec.local_refs(self_), 'opi': len(w.ops)})
                 return remote_op('push', names, run)
             return push
 
@@ -543,7 +572,7 @@ class Recorder:
                         return orig(self_, prune=prune)
                     # atomic push: one refused ref refuses everything
                     raise lg.PushFailedException('atomic push failed: ' + str(reject))
-                w.trace.append({'op': 'push_all', 'prune': prune, 'local': rec.local_refs(self_)})
+                w.trace.append({'op': 'push_all', 'prune': prune, 'local': rec.local_refs(self_), 'opi': len(w.ops)})
                 return remote_op('push_all', {'prune': prune}, run)
             return push_all
 
